@@ -597,6 +597,11 @@ class Generator:
                 mp = it.modpath
             elif it.kind in ('raw', 'spec') and it.modpath:
                 mp = it.modpath
+            elif it.kind == 'fn' and it.impl_header is not None and ' for ' in it.impl_header and 'module' in it.entry.opts:
+                # trait impls may be placed in a module of their own (opt `module=NAME`): the impl headers of the
+                # expansion name traits unqualified (`impl Mul for ..`), which clashes at the crate root with
+                # hoisted local items of the same name (R7 `struct Mul` of basecase_div_rem)
+                mp = tuple(subst(it.entry.opts['module'], self.digit).split('::'))
             else:
                 mp = ()
             node = tree
